@@ -95,6 +95,8 @@ class World:
         self.str_handlers = {}  # class -> fn(executor, state, Val) -> String term
         self.ghost_sorts = {}
         self.sql_tags = {}
+        self.duck_class = None  # class assumed for attribute access on values of unknown type (sqlglot Expression) ...
+        self.duck_attrs = set()  # ... for these attribute names
         self.axioms = []  # valid facts about uninterpreted symbols, added to the hypotheses of every obligation
 
     def symbolic_global(self, obj, hint):
